@@ -245,7 +245,7 @@ def check_c06(tier, seed):
     rng = random.Random(seed * 1000 + 6)
     compilers = ['g++'] if tier == 'quick' else ['g++', 'clang++-14']
     models = special_models()
-    n = 5 if tier == 'quick' else 30
+    n = 5 if tier == 'quick' else 12
     k = 0
     while len(models) < n + 4 and k < 10 * n:
         k += 1
